@@ -778,7 +778,8 @@ class CBO(Search):
             raise ValueError("The argument 'df' should be a path to a CSV file or a DataFrame!")
 
         if type(df) is str and df[-4:] == ".csv":
-            df = pd.read_csv(df)
+            # the checkpoint must give back exactly the objectives that were written
+            df = pd.read_csv(df, float_precision="round_trip")
 
         df, df_failures = filter_failed_objectives(df)
 
